@@ -62,12 +62,16 @@ Definition extend_keep (self other : lmap) : lmap :=       (* Labels::extend_fro
 
 (* ---- field values and the Visit impl *)
 Inductive fval :=
-| VEmpty                 (* tracing::field::Empty: declared, nothing recorded *)
-| VStr (s : str)         (* record_str *)
-| VBool (b : bool)       (* record_bool *)
-| VI64 (z : Z)           (* record_i64: itoa *)
-| VU64 (n : N)           (* record_u64: itoa *)
-| VDebug (rendered : str)(* record_debug: format!("{value:?}") — the rendering is an oracle (data) *).
+| VEmpty                 (* tracing::field::Empty, or an Option::None value: nothing is visited *)
+| VStr (s : str)         (* Visit::record_str (overridden): the string itself *)
+| VBool (b : bool)       (* record_bool (overridden): "true" / "false" *)
+| VI64 (z : Z)           (* record_i64 (overridden): itoa = decimal, as <i64 as Display> *)
+| VU64 (n : N)           (* record_u64 (overridden): itoa = decimal, as <u64 as Display> *)
+| VI128 (z : Z)          (* record_i128 (NOT overridden): default -> record_debug(&value) -> <i128 as Debug> = decimal *)
+| VU128 (n : N)          (* record_u128 (NOT overridden): default -> record_debug(&value) -> <u128 as Debug> = decimal *)
+| VBytes (b : list N)    (* record_bytes (not overridden): default -> record_debug(&HexBytes(b)) = "[" two-digit lower hex, space separated "]" *)
+| VError (display : str) (* record_error (not overridden): default -> record_debug(&DisplayValue(err)) = the error's Display text (data) *)
+| VDebug (rendered : str)(* record_debug, and record_f64 via its default: format!("{value:?}") — the rendering is an oracle (data) *).
 
 Fixpoint uint_digits (u : Decimal.uint) : list N :=
   match u with
@@ -86,6 +90,14 @@ Definition dec_Z (z : Z) : str :=
   | Zneg p => 45 :: dec_N (Npos p)
   end.
 
+Definition hex_digit (n : N) : N := if n <? 10 then 48 + n else 87 + n.
+Fixpoint hex_bytes_body (b : list N) : str :=
+  match b with
+  | [] => []
+  | [x] => [hex_digit (x / 16); hex_digit (x mod 16)]
+  | x :: r => hex_digit (x / 16) :: hex_digit (x mod 16) :: 32 :: hex_bytes_body r
+  end.
+
 Definition render (v : fval) : option str :=
   match v with
   | VEmpty => None
@@ -94,6 +106,10 @@ Definition render (v : fval) : option str :=
   | VBool false => Some [102; 97; 108; 115; 101]     (* "false" *)
   | VI64 z => Some (dec_Z z)
   | VU64 n => Some (dec_N n)
+  | VI128 z => Some (dec_Z z)
+  | VU128 n => Some (dec_N n)
+  | VBytes b => Some (91 :: hex_bytes_body b ++ [93])
+  | VError s => Some s
   | VDebug s => Some s
   end.
 
